@@ -14,11 +14,18 @@ Definition M : Z := RC_MOD.          (* RollingChecksum::MOD *)
 Definition FM : Z := FRC_MOD.        (* FastRollingChecksum::MOD *)
 Definition INTERVAL : Z := FRC_INTERVAL.
 
-Definition w32 (x : Z) : Z := x mod 2^32.
-Definition w64 (x : Z) : Z := x mod 2^64.
+(** Powers of two as literals (evaluated once by the extracted code). *)
+Definition P32 : Z := 4294967296.
+Definition P64 : Z := 18446744073709551616.
 
+(** Wrap-around to 32 / 64 bits.  The in-range test is only a fast path for
+    execution: [w32 x = x mod 2^32] and [w64 x = x mod 2^64] (ChecksumProofs). *)
+Definition w32 (x : Z) : Z := if (0 <=? x) && (x <? P32) then x else x mod P32.
+Definition w64 (x : Z) : Z := if (0 <=? x) && (x <? P64) then x else x mod P64.
+
+Definition pow2 (k : Z) : Z := if k =? 32 then P32 else if k =? 64 then P64 else 2^k.
 Definition ck (k : Z) (x : Z) : option Z :=
-  if (0 <=? x) && (x <? 2^k) then Some x else None.
+  if (0 <=? x) && (x <? pow2 k) then Some x else None.
 
 Notation "x <- e ;; f" := (match e with Some x => f | None => None end)
   (at level 61, e at next level, right associativity).
